@@ -343,6 +343,24 @@ func origTTLs(up *dns.Msg) (m map[string]uint32, lowest float64) {
 	return m, lowest
 }
 
+// propLifetime is the lifetime the property grants an entry: the smallest
+// record TTL of the upstream's answer, raised to the configured minimum when
+// the override is on; a SERVFAIL is short-lived: min(smallest record TTL, 30 s)
+// and no override (documented for both caches).  +Inf if nothing bounds it.
+func propLifetime(up *dns.Msg, c cfg) float64 {
+	_, lowest := origTTLs(up)
+	if up != nil && up.Rcode == dns.RcodeServerFailure {
+		return math.Min(lowest, servfailMax)
+	}
+	if math.IsInf(lowest, 1) {
+		return lowest
+	}
+	if c.Override {
+		lowest = math.Max(lowest, float64(c.MinTTL))
+	}
+	return lowest
+}
+
 // storedLowest models which single TTL the implementations keep per entry; it
 // is used ONLY to name the class of a TTL violation, never to decide one.
 func storedLowest(up *dns.Msg, c cfg) uint32 {
@@ -430,9 +448,9 @@ func (m *monitor) judgeHit(jc judgeCtx, h, twin *probe, fills []*probe, history 
 	}
 	v.AMin, v.AMax = aMin, aMax
 
-	orig, lowest := origTTLs(twin.UpOrig)
+	orig, _ := origTTLs(twin.UpOrig)
 	eff := func(o uint32) float64 {
-		if c.Override {
+		if c.Override && twin.C.Rcode != dns.RcodeServerFailure {
 			return float64(max(o, c.MinTTL))
 		}
 		return float64(o)
@@ -447,18 +465,17 @@ func (m *monitor) judgeHit(jc judgeCtx, h, twin *probe, fills []*probe, history 
 	}
 
 	// (d) nothing is served after expiry
-	if !math.IsInf(lowest, 1) {
-		life := lowest
-		if c.Override {
-			life = math.Max(life, float64(c.MinTTL))
+	servfail := twin.C.Rcode == dns.RcodeServerFailure
+	if life := propLifetime(twin.UpOrig, c); !math.IsInf(life, 1) && aMin.Seconds() > life+0.001 {
+		key := c.Cache + ":served-after-expiry"
+		what := "an entry was served from cache although even its smallest possible age exceeds its original TTL"
+		if servfail {
+			key = c.Cache + ":servfail-served-after-its-lifetime"
+			what = "a SERVFAIL answer was served from cache although even its smallest possible age exceeds min(its records' TTL, 30 s); the minimum-TTL override does not apply to SERVFAIL"
 		}
-		if aMin.Seconds() > life+0.001 {
-			r.Violation(c.Cache+":served-after-expiry",
-				"an entry was served from cache although even its smallest possible age exceeds its original TTL",
-				wit(map[string]any{"entry_lifetime_s": life}))
-			v.Decided = true
-			return v
-		}
+		r.Violation(key, what, wit(map[string]any{"entry_lifetime_s": life}))
+		v.Decided = true
+		return v
 	}
 
 	// (c) served TTL <= round(orig - age), floor zero, for at least one age in the interval
@@ -516,7 +533,7 @@ func (m *monitor) judgeHit(jc judgeCtx, h, twin *probe, fills []*probe, history 
 		key := c.Cache + ":ttl-exceeds-remaining"
 		what := "a TTL served from cache exceeds round(original TTL - time in cache) for every age compatible with the recorded timestamps"
 		low := storedLowest(twin.UpOrig, c)
-		if !c.ecs() && allSame && first != nil && *first == low && math.Floor(float64(low)-aMax.Seconds()+0.5) <= 0 {
+		if !c.ecs() && !(servfail && c.Override) && allSame && first != nil && *first == low && math.Floor(float64(low)-aMax.Seconds()+0.5) <= 0 {
 			key = "simple-cache:original-ttl-served-when-remainder-rounds-to-zero"
 			what = "simple cache: in the last half second of an entry's life (remaining time rounds to 0) the full original TTL is served instead of 0"
 		}
